@@ -45,7 +45,11 @@ func (mc *methodCache[R]) get(key string) (R, bool) {
 		return zero, false
 	}
 	if entry.result.GetTTLMs() <= 0 || !entry.isValid() {
-		delete(mc.cachedValues, key)
+		// The entry is no longer served, but it stays cached until the result
+		// the caller is about to request replaces it (putLocked) or an
+		// invalidation drops it: lookupTool consults the cached pages whatever
+		// their age, and a CallTool that runs while the list is being
+		// re-fetched must still find the tool's definition.
 		var zero R
 		return zero, false
 	}
